@@ -40,8 +40,8 @@ type HTTPStopCase struct {
 	Pool        int            `json:"pool"`
 	MaxBlocking int            `json:"max_blocking"`
 	Conns       []StopConnPlan `json:"conns"`
-	Method      string         `json:"method"` // stop | shutdown
-	Early       int            `json:"early"`  // -1: after every client reached its state; k: as soon as k clients did
+	Method      string         `json:"method"`         // stop | shutdown
+	Early       int            `json:"early"`          // -1: after every client reached its state; k: as soon as k clients did
 	Late        bool           `json:"late,omitempty"` // one more client connects while the stop is in progress
 	TLS         bool           `json:"tls,omitempty"`  // TLS listener (llib, transformed), crypto/tls clients
 }
